@@ -5,7 +5,7 @@
 #include "opus_types.h"
 #include "/repo/src/opus.c"
 #include <stdlib.h>
-#include "../spec/rfc6716_framing.h"
+#include "rfc6716_framing.h"
 VERIF_DEFINE_CELT_FATAL
 #ifndef VERIF_LEN_MAX
 #define VERIF_LEN_MAX 8
